@@ -136,6 +136,7 @@ def const_defs(constants):
 
 _ADAPTER = None
 _ACFG = None
+_SKIP_SAMPLES = []
 
 
 def _replay_chunk(lines):
@@ -165,11 +166,15 @@ def _replay_chunk(lines):
             before = ad.project(obj)
         except Exception as ex:    # the prefix is reported by its own (shorter) edge
             skipped += 1
+            if len(_SKIP_SAMPLES) < 3:
+                _SKIP_SAMPLES.append({"history": hist, "prefix_raised": type(ex).__name__ + ":" + str(ex)[:200]})
             continue
         if not match(pre, before):
             # an earlier step took another allowed nondeterministic branch, or an earlier
             # edge already reports the mismatch
             skipped += 1
+            if len(_SKIP_SAMPLES) < 3:
+                _SKIP_SAMPLES.append({"history": hist, "expected_state_before_the_last_step": pre, "observed": jsonable(before)})
             continue
         try:
             ret = ad.apply(obj, op)
@@ -185,6 +190,9 @@ def _replay_chunk(lines):
         if not ok:
             fails.append({"hist": hist, "pre": pre, "allowed": allowed[:4],
                           "observed": {"ret": jsonable(ret), "st": jsonable(st)}})
+    if skipped * 2 > len(order) and not fails:
+        # carried back to the parent as pseudo-failures only when the whole run turns out to be mostly skipped
+        ops["__skip_samples"] = list(_SKIP_SAMPLES)
     return len(lines), fails, ops, skipped, len(distinct)
 
 
@@ -236,6 +244,7 @@ def gen_replay(ctx, mod, constants, depth, adapter, acfg=None, invariants=(), pr
         if cur:
             chunks.append(cur)
     total = {"edges": 0, "fails": 0, "skipped": 0, "ops": {}, "distinct": 0}
+    skip_samples = []
     if nproc > 1:
         with multiprocessing.get_context("fork").Pool(nproc) as pool:
             results = pool.map(_replay_chunk, chunks)
@@ -246,6 +255,9 @@ def gen_replay(ctx, mod, constants, depth, adapter, acfg=None, invariants=(), pr
         total["skipped"] += skipped
         total["distinct"] += nd
         for k, v in ops.items():
+            if k == "__skip_samples":
+                skip_samples.extend(v)
+                continue
             total["ops"][k] = total["ops"].get(k, 0) + v
         for f in fails:
             handled = classify(ctx, f) if classify else False
@@ -257,8 +269,10 @@ def gen_replay(ctx, mod, constants, depth, adapter, acfg=None, invariants=(), pr
         # the replayer could not even reach most pre-states: the binding itself is broken (or an earlier, shorter edge
         # already reported why); never count such a run as coverage
         if not total["fails"]:
-            raise core.MachineryError("%s: %d of %d edges could not be replayed (prefix raised or pre-state mismatch)" % (
-                name, total["skipped"], total["edges"]))
+            # no checked step differs, yet the real object does not follow the specification along the prefixes (the
+            # divergence sits in steps that are not replayed on their own, e.g. set-up operations): a conformance failure
+            ctx.violation("prefix-diverges", {"module": mod, "skipped": total["skipped"], "edges": total["edges"],
+                                              "samples": skip_samples[:3], "constants": constants})
     ctx.traces += total["edges"] - total["skipped"]
     ctx.evaluations += total["edges"]
     for i in range(total["distinct"]):
